@@ -432,7 +432,11 @@ func (w *walker) l3Read(mp string) {
 		}
 		if rerr != nil {
 			sf := l3StateFile(mp)
-			w.violate("read:errno"+errClass(sf, store)+"(kernel)", fmt.Sprintf("pread(%q, off=%d, len=%d): %v with a healthy registry; layer state file: %s", "/"+p, off, ln, rerr, strings.TrimSpace(sf)),
+			cls := errClass(sf, store)
+			if cls == "@"+store {
+				cls += "(kernel)" // unclassified: keep the level in the key
+			} // a classified error is the same defect as at L2: same key
+			w.violate("read:errno"+cls, fmt.Sprintf("pread(%q, off=%d, len=%d): %v with a healthy registry; layer state file: %s", "/"+p, off, ln, rerr, strings.TrimSpace(sf)),
 				map[string]any{"path": p, "off": off, "len": ln, "state_file": sf})
 			continue
 		}
